@@ -369,6 +369,9 @@ func sendAsm(a *asmCase) (obs string, timedOut bool, pool bool) {
 		return "err=" + gen.Hex(err.Error()), false, pool
 	}
 	st := resp.StatusCode()
+	// the path the client put into the request URI, before fasthttp normalises it ("//" collapses on the way to
+	// the server, so the server's view cannot tell an empty path-parameter value from a missing segment)
+	sentPath := gen.Hex(string(req.RawRequest.URI().PathOriginal()))
 	// the Response object is pooled too: it must carry this exchange only
 	if len(resp.Cookies()) != 0 || string(resp.Body()) != "ok" || resp.Header("Set-Cookie") != "" {
 		pool = false
@@ -377,7 +380,7 @@ func sendAsm(a *asmCase) (obs string, timedOut bool, pool bool) {
 	if !seen.ran {
 		return fmt.Sprintf("notrun=%d", st), false, pool
 	}
-	return seen.text, false, pool
+	return seen.text + ";po=" + sentPath, false, pool
 }
 
 var poolSame, poolRounds int
